@@ -71,7 +71,7 @@ var ops = []op{
 	{Name: "crypto.DecryptPrivateKey", Algs: rsaAlgs, Modes: fixed(rsaDecModes), Run: func(k *call) { k.rsaDec("pub") }, Heavy: true, PkArg: rsaDecArgs, Sized: never, Aad: true},
 	{Name: "crypto.Decrypt(rsa)", Algs: rsaAlgs, Modes: fixed(rsaDecModes), Run: func(k *call) { k.rsaDec("generic") }, Heavy: true, PkArg: rsaDecArgs, Sized: never, Aad: true},
 	{Name: "crypto.SignPrivateKey", Algs: sigAlgs, Modes: fixed(signModes), Run: func(k *call) { k.sign() }, Heavy: true, Sized: sigSized},
-	{Name: "crypto.VerifyPublicKey", Algs: sigAlgs, Modes: fixed(verifyModes), Run: func(k *call) { k.verify() }, Heavy: true, PkArg: []string{"digest", "signature"}, Sized: func(alg, _ string) bool { return sigSized(alg, "") }},
+	{Name: "crypto.VerifyPublicKey", Algs: sigAlgs, Modes: verifyModesFor, Run: func(k *call) { k.verify() }, Heavy: true, PkArg: []string{"digest", "signature"}, Sized: func(alg, _ string) bool { return sigSized(alg, "") }},
 	{Name: "crypto.ParseKey", Algs: docFormNames(nil), Modes: fixed(parseKeyModes), Run: func(k *call) { k.parseKey() }, Sized: docSized, Doc: true},
 	{Name: "crypto.SerializeKey", Algs: serializeAlgs, Modes: fixed([]string{"ok"}), Run: func(k *call) { k.serializeKey() }, Sized: func(alg, _ string) bool { return alg == "oct" }},
 	{Name: "pem.DecodePEMCertificates", Algs: pemDocAlgs, Modes: fixed([]string{"call"}), Run: func(k *call) { k.pemDecode("certs") }, Sized: docSized, Doc: true},
@@ -113,17 +113,21 @@ func opByName(n string) op {
 
 // checkMem runs one case and compares every byte the callee had no right to write.
 func checkMem(c memCase) (string, caseStat) {
-	msg, st, _ := runMem(c)
+	msg, st, a := runMem(c)
+	a.release()
 	return msg, st
 }
 
-// runMem is checkMem that also hands out the arena of the call (for the checks over sequences of calls).
+// runMem is checkMem that also hands out the arena of the call (for the checks over sequences of calls); the caller releases it.
 func runMem(c memCase) (string, caseStat, *arena) {
 	var st caseStat
-	k := &call{c: c, a: &arena{seed: c.Seed}}
+	k := &call{c: c, a: &arena{seed: c.Seed, fenced: c.Mem == "fenced"}}
 	opByName(c.Op).Run(k)
 	if k.harness != "" {
 		return "harness: " + k.harness, st, k.a
+	}
+	if k.a.faultMsg != "" {
+		return fmt.Sprintf("%s wrote to memory owned by the caller: %s", c.Op, k.a.faultMsg), st, k.a
 	}
 	if msg := k.a.diff(); msg != "" {
 		return fmt.Sprintf("%s wrote to memory owned by the caller: %s (call returned err=%v panic=%v)", c.Op, msg, k.err, k.pnc), st, k.a
@@ -141,6 +145,10 @@ func runMem(c memCase) (string, caseStat, *arena) {
 	st.classes = append(st.classes, "op."+c.Op, "mode."+c.Mode)
 	st.classes = append(st.classes, lay...)
 	st.classes = append(st.classes, k.classes...)
+	st.classes = append(st.classes, k.a.memClasses()...)
+	if st.nontrivial && k.a.fenced && k.a.fenceErr == nil {
+		st.classes = append(st.classes, "mem.fenced.nontrivial")
+	}
 	if len(c.Pack) > 0 {
 		st.classes = append(st.classes, "cap."+c.Cap)
 	}
@@ -210,6 +218,9 @@ func TestMemSweep(t *testing.T) {
 				if o.Doc && !o.sized(alg, mode) {
 					lens = []int{17} // a fixed document: the length plays no part
 				}
+				if strings.HasPrefix(mode, "enc.") && !o.sized(alg, mode) {
+					lens = []int{17} // an encoding of the signature over a digest of fixed size: the length plays no part
+				}
 				for _, l := range lens {
 					for si, sp := range sweepSpares {
 						dsts := []string{""}
@@ -221,7 +232,7 @@ func TestMemSweep(t *testing.T) {
 							if !vk.Mine(idx) {
 								continue
 							}
-							c := memCase{Op: o.Name, Alg: alg, Mode: mode, Len: l, AadLen: []int{0, 13}[idx%2], Spare: sp, Dst: d, DstLen: []int{0, 5}[si%2], NilEmpty: si == 0 && l == 0, Seed: uint64(idx) * 0x9e3779b97f4a7c15}
+							c := memCase{Op: o.Name, Alg: alg, Mode: mode, Len: l, AadLen: []int{0, 13}[idx%2], Spare: sp, Dst: d, DstLen: []int{0, 5}[si%2], NilEmpty: si == 0 && l == 0, Mem: sweepMem(idx), Seed: uint64(idx) * 0x9e3779b97f4a7c15}
 							msg, st := checkMem(c)
 							if msg != "" {
 								t.Fatalf("C17 caller memory violated: %s\ncase: %s", msg, c)
@@ -279,6 +290,7 @@ func drawCase(rt *rapid.T, o op, big int) memCase {
 		c.Gap = rapid.SliceOfN(rapid.OneOf(rapid.Just(0), rapid.Just(0), rapid.IntRange(1, 40), rapid.IntRange(-40, -1)), n-1, n-1).Draw(rt, "gap")
 		c.Cap = rapid.SampledFrom(capModes).Draw(rt, "cap")
 	}
+	c.Mem = rapid.SampledFrom(memKinds).Draw(rt, "mem")
 	c.Seed = rapid.Uint64().Draw(rt, "seed")
 	return c
 }
